@@ -9,14 +9,15 @@
 EXTENDS Naturals, Integers, Sequences, FiniteSets, TLC
 
 CONSTANTS NI, NOps
-VARIABLES g   \* [ops: seq of [ins: seq of value ids, nondet: BOOLEAN], outs: seq of requested values, S: set of provided inputs]
+VARIABLES g   \* [ops: seq of [ins: seq of value ids, caps: set of captured value ids, nondet: BOOLEAN], outs: seq of requested values, S: set of provided inputs]
 
 NV == NI + NOps
 Vals == 1..NV
 Inputs == 1..NI
 RangeOf(s) == {s[i] : i \in DOMAIN s}
 OpOf(v) == v - NI
-InsOf(gr, v) == RangeOf(gr.ops[OpOf(v)].ins)
+\* everything the operator needs: inputs and the values its subgraphs capture
+InsOf(gr, v) == RangeOf(gr.ops[OpOf(v)].ins) \cup gr.ops[OpOf(v)].caps
 IsOpVal(v) == v > NI
 
 RECURSIVE Lfp(_, _)
@@ -56,7 +57,9 @@ PruneImpl(gr, S) ==
 InSeqs(i) == UNION {[1..k -> 1..(NI + i - 1)] : k \in 1..2}
 RECURSIVE OpSeqs(_)
 OpSeqs(i) == IF i = 0 THEN {<<>>}
-             ELSE {Append(s, [ins |-> x, nondet |-> n]) : s \in OpSeqs(i - 1), x \in InSeqs(i), n \in BOOLEAN}
+             ELSE {Append(s, [ins |-> x, caps |-> c, nondet |-> n]) :
+                     s \in OpSeqs(i - 1), x \in InSeqs(i), n \in BOOLEAN,
+                     c \in {{}} \cup {{v} : v \in 1..(NI + i - 1)}}
 OutSeqs == {<<NV>>} \cup {<<NV, v>> : v \in Vals \ {NV}} \cup {<<v, NV>> : v \in Vals \ {NV}}
 Graphs == {[ops |-> s, outs |-> o, S |-> sub] : s \in OpSeqs(NOps), o \in OutSeqs, sub \in SUBSET Inputs}
 
